@@ -65,7 +65,7 @@ func Seg(iface *net.Interface) *Segment {
 	defer segMu.Unlock()
 	s := segs[iface.Index]
 	if s == nil {
-		s = &Segment{recv: map[*RecvSock]struct{}{}, Tap: make(chan Frame, 65536)}
+		s = &Segment{recv: map[*RecvSock]struct{}{}, Tap: make(chan Frame, 1024)}
 		segs[iface.Index] = s
 	}
 	return s
